@@ -194,7 +194,7 @@ def _pp_load(pp, source):
 W_EVENTS = ["load_a", "load_b", "target", "export", "rewrite_a"]
 
 
-def wrap_explore(tier, inst, shard, nshards):
+def wrap_explore(tier, inst, shard, nshards, only_history=None):
     import OpenPinch.classes.pinch_problem as ppmod
     from OpenPinch.main import pinch_analysis_service as real_service
 
@@ -217,32 +217,51 @@ def wrap_explore(tier, inst, shard, nshards):
     saved = ppmod.pinch_analysis_service
     ppmod.pinch_analysis_service = counting
     try:
-        files = []
-        for i, p in enumerate((pa, pb)):
-            fp = os.path.join(tmp, "ab"[i], "Project.json")
-            os.makedirs(os.path.dirname(fp))
-            json.dump(p, open(fp, "w"))
-            files.append(fp)
+        import pandas as pd
+
+        def write_source(path, prob):
+            """the problem as a JSON file or as a workbook with the template sheets, depending on the file name"""
+            if path.endswith(".json"):
+                json.dump(prob, open(path, "w"))
+                return
+            with pd.ExcelWriter(path, engine="openpyxl") as xw:
+                pd.DataFrame([STREAM_HDR[0], STREAM_HDR[1]] + stream_rows(prob)).to_excel(xw, sheet_name="Stream Data", header=False, index=False)
+                pd.DataFrame([UTIL_HDR[0], UTIL_HDR[1]] + util_rows(prob)).to_excel(xw, sheet_name="Utility Data", header=False, index=False)
+
         os.makedirs(os.path.join(tmp, "out"))
         idx = 0
-        for n in range(1, depth + 1):
-            for hist in itertools.product(range(len(W_EVENTS)), repeat=n):
+        files_by_fmt = {}
+        for fmt in ("json", "xlsx"):
+            fl = []
+            for i, p in enumerate((pa, pb)):
+                fp = os.path.join(tmp, fmt + "ab"[i], "Project." + (fmt if i == 0 else "json"))      # source a is a JSON file or a workbook; b a JSON file
+                os.makedirs(os.path.dirname(fp))
+                write_source(fp, p)
+                fl.append(fp)
+            files_by_fmt[fmt] = fl
+        work = [("json", h) for n in range(1, depth + 1) for h in itertools.product(range(len(W_EVENTS)), repeat=n)]
+        work += [("xlsx", h) for n in range(1, depth) for h in itertools.product(range(len(W_EVENTS)), repeat=n)]     # workbook source: one call less deep
+        if only_history is not None:
+            work = [(only_history.get("fmt", "json"), tuple(only_history["history"]))]
+        for fmt, hist in work:
+            if True:
+                files = files_by_fmt[fmt]
                 idx += 1
-                if idx % nshards != shard:
+                if idx % nshards != shard and only_history is None:
                     continue
-                case = {"history": list(hist), "inst": list(inst)}
+                case = {"history": list(hist), "inst": list(inst), "fmt": fmt}
                 pp = ppmod.PinchProblem()
                 loaded = None
                 need_fresh = True       # a service call is due at the next target()/export()
                 content_a = 0           # which problem file a currently holds (the file is rewritten by 'rewrite_a')
-                json.dump(pa, open(files[0], "w"))
+                write_source(files[0], pa)
                 for step, e in enumerate(hist):
                     ev = W_EVENTS[e]
                     del calls[:]
                     try:
                         if ev == "rewrite_a":
                             content_a = 1 - content_a
-                            json.dump(pb if content_a else pa, open(files[0], "w"))
+                            write_source(files[0], pb if content_a else pa)
                             continue
                         if ev in ("load_a", "load_b"):
                             pp.load(files[0 if ev == "load_a" else 1])
@@ -299,7 +318,7 @@ def wrap_replay(case, res: Result):
     # a single history: run the explorer restricted to it
     import OpenPinch.classes.pinch_problem as ppmod
     hist = tuple(case["history"])
-    r = wrap_explore("thorough" if len(hist) > 4 else "quick", tuple(case["inst"]), 0, 1)
+    r = wrap_explore("thorough" if len(hist) > 4 else "quick", tuple(case["inst"]), 0, 1, only_history=case)
     for v in r.violations:
         if tuple(v["case"]["history"]) == hist:
             res.violate(v["clause"], case, v["detail"], v["signature"])
@@ -412,7 +431,7 @@ SUBCHECKS = {
         describe="all sequences of PinchProblem load/target/export: result of the currently loaded problem, and the service is called exactly when no cached result exists",
         rule="state = (loaded problem, cache valid); non-trivial = every history",
         explore=wrap_explore, replay=wrap_replay,
-        bound=lambda t: "all sequences of <=4 of 5 events (780)" if t == "quick" else "all sequences of <=5 of 5 events (3905)",
+        bound=lambda t: "all sequences of <=4 of 5 events with a JSON source (780) and of <=3 with a workbook source (155)" if t == "quick" else "all sequences of <=5 of 5 events with a JSON source (3905) and of <=4 with a workbook source (780)",
     ),
     "sheet_names": SubCheck(
         name="sheet_names",
